@@ -42,6 +42,11 @@ pub enum Universe {
     /// square (pins one pawn, or gives check), the enemy king on two far squares; both colours. The two captures onto
     /// the same square can differ in legality - per-destination shortcuts in the legality filter show here.
     UPP,
+    /// under-promotion family: a pawn on its 7th rank (each file) with the promotion square free, one enemy rook or queen on
+    /// every square, both kings on three squares each, both sides to move, both colours. What the new piece can capture in
+    /// the capture-only extension depends on its kind (a rook may take a rook there, a queen may not), so rook and bishop
+    /// promotions are sometimes strictly best by an ordinary margin.
+    UPQ,
     /// castling x en passant product: kings on e1/e8, every (rook subset, rights subset) of UC, a capturer/victim pawn pair
     /// on every file pair, with the en-passant flag set and not set, both colours: all (rights, ep) state bytes on one board
     UCE,
@@ -70,6 +75,7 @@ impl Universe {
             Universe::UCE => "UCE".into(),
             Universe::UEX => "UEX".into(),
             Universe::UPP => "UPP".into(),
+            Universe::UPQ => "UPQ".into(),
             Universe::UZ { a, b, d } => format!("UZ[{}{}|{}]", piece_letter(code(*a, true)), piece_letter(code(*b, true)), piece_letter(code(*d, false))),
             Universe::UPIN => "UPIN".into(),
             Universe::UDBL => "UDBL".into(),
@@ -80,7 +86,7 @@ impl Universe {
     pub fn units(&self) -> usize {
         match self {
             Universe::U2 | Universe::U3 | Universe::U4 { .. } | Universe::UE { .. } | Universe::UCK { .. } | Universe::UPIN | Universe::UDBL => 64,
-            Universe::UEA | Universe::UEX => 8,
+            Universe::UEA | Universe::UEX | Universe::UPQ => 8,
             Universe::UZ { .. } => 12,
             Universe::UPP => 64,
             Universe::UC { .. } | Universe::UCE => 81,
@@ -123,6 +129,7 @@ impl Universe {
             Universe::UEA => uea_unit(unit as i8, f),
             Universe::UEX => uex_unit(unit as i8, f),
             Universe::UPP => upp_unit(unit as u8, f),
+            Universe::UPQ => upq_unit(unit as i8, f),
             Universe::UZ { a, b, d } => uz_unit(unit, *a, *b, *d, f),
             Universe::UPIN => upin_unit(unit as u8, f),
             Universe::UDBL => udbl_unit(unit as u8, f),
@@ -656,6 +663,40 @@ fn upp_unit(wk: u8, f: &mut dyn FnMut(Pos)) {
                         p.b[target as usize] = code(victim, false);
                         p.b[ss as usize] = code(slider, false);
                         p.white = true;
+                        if p.sane() {
+                            f(p);
+                            let m = p.mirror();
+                            if m.sane() {
+                                f(m);
+                            }
+                        }
+                    }
+                }
+            }
+        }
+    }
+}
+
+fn upq_unit(file: i8, f: &mut dyn FnMut(Pos)) {
+    let pawn = sq(6, file);
+    let promo = sq(7, file);
+    for enemy in [R, Q] {
+        for es in 0..64u8 {
+            if es == pawn || es == promo {
+                continue;
+            }
+            for wk in [sq(0, 1), sq(2, 6), sq(5, 3)] {
+                for bk in [sq(7, 6), sq(4, 0), sq(1, 4)] {
+                    if [pawn, promo, es].contains(&wk) || [pawn, promo, es, wk].contains(&bk) || adjacent(wk, bk) {
+                        continue;
+                    }
+                    let mut p = Pos::empty();
+                    p.b[wk as usize] = WK;
+                    p.b[bk as usize] = BK;
+                    p.b[pawn as usize] = code(P, true);
+                    p.b[es as usize] = code(enemy, false);
+                    for white in [true, false] {
+                        p.white = white;
                         if p.sane() {
                             f(p);
                             let m = p.mirror();
